@@ -171,6 +171,15 @@ func newVC(p *Program, key string) *VC {
 		assumes: map[string]bool{}, stubs: map[string]bool{}, havocs: map[string]bool{}, inlined: map[string]bool{}, usedCon: map[string]bool{}, fnKey: key}
 }
 
+// strRank: Go's string order through an order embedding into the reals (every countable linear order
+// embeds in Q); declared only in VCs that compare strings.
+func (vc *VC) strRank(x Term) Term {
+	vc.decl("fn:str_rank", "(declare-fun str_rank (Str) Real)")
+	vc.decl("fn:str_unrank", "(declare-fun str_unrank (Real) Str)")
+	vc.decl("ax:str_rank", "(assert (forall ((s Str)) (! (= (str_unrank (str_rank s)) s) :pattern ((str_rank s)))))")
+	return fmt.Sprintf("(str_rank %s)", x)
+}
+
 func (vc *VC) decl(name, d string) {
 	if vc.declared[name] {
 		return
